@@ -627,6 +627,15 @@ def state_closure(cx: Cx, ob: Ob) -> None:
             )
     for m, attr, ev, how in writers:
         if m.name in allowed_writers:
+            # in-place maintenance is fine; REBINDING a lookup table after construction is not:
+            # tries and services hold references to the old object
+            if how == "assign" and attr in TABLES and m.name != "__init__":
+                ob.violate(
+                    m.qualname,
+                    where(m, ev.line),
+                    f"{m.name} rebinds self.{attr} after construction: objects that captured the old table (resolver services, the trie built from reverse_prefix_map) keep answering from the stale one",
+                    detail=f"rebind:{attr}",
+                )
             continue
         ob.site(f"{where(m, ev.line)} {m.qualname}", f"writes self.{attr}")
         ob.violate(
@@ -842,3 +851,38 @@ def dict_items(s: Summary | None, t) -> dict | None:
             else:
                 return None
     return out
+
+
+def cached_derivations(cx: Cx, ob: Ob, class_names=("Record", "Reference", "NamableReference", "NamedReference", "Converter", "ReferenceTuple")) -> None:
+    """No memoised derived value on objects whose fields are mutated in place / copied with updates."""
+    for ci in cx.model.classes.values():
+        if ci.name not in class_names:
+            continue
+        for m in ci.methods.values():
+            if m.is_cached_property:
+                ob.violate(
+                    m.qualname,
+                    m.where,
+                    f"{ci.name}.{m.name} is memoised ({', '.join(d for d in m.decorators if 'cache' in d)}): {ci.name} objects are changed in place (Converter._merge appends to the synonym lists) or copied with updates (model_copy), after which the cached value is stale",
+                    witness="merge a record, then ask get_subconverter / the duplicate detectors / .curie again: they still see the value from before the change",
+                    detail=f"memoised:{ci.name}.{m.name}",
+                )
+        ob.site(f"src/curies/{ci.module.relpath}:{ci.node.lineno} {ci.qualname}", "no memoised derived values")
+
+
+def class_state_closure(cx: Cx, ob: Ob, cls_q: str, allowed=("__init__",)) -> None:
+    """Instances of a service class keep no state that query methods write (per-instance or class-level)."""
+    import ast as _ast
+
+    ci = cx.model.cls(cls_q, ob.id)
+    ob.site(f"src/curies/{ci.module.relpath}:{ci.node.lineno} {ci.qualname}", "state scan")
+    for name, val in ci.assigns.items():
+        if isinstance(val, (_ast.Dict, _ast.List, _ast.Set)) or (isinstance(val, _ast.Call) and _ast.unparse(val.func) in ("dict", "list", "set", "defaultdict", "collections.defaultdict")):
+            ob.violate(ci.qualname, f"src/curies/{ci.module.relpath}:{val.lineno}", f"{ci.name}.{name} is a mutable CLASS attribute: it is shared by every instance (every service built in the process)", detail=f"class-attr:{name}")
+    for name, (ann, val) in ci.fields.items():
+        if val is not None and (isinstance(val, (_ast.Dict, _ast.List, _ast.Set)) or (isinstance(val, _ast.Call) and _ast.unparse(val.func) in ("dict", "list", "set", "defaultdict"))):
+            ob.violate(ci.qualname, f"src/curies/{ci.module.relpath}:{val.lineno}", f"{ci.name}.{name} is a mutable CLASS attribute: it is shared by every instance (every service built in the process)", detail=f"class-attr:{name}")
+    for m, attr, ev, how in self_state_writes(cx, cls_q, ob.id):
+        if m.name in allowed:
+            continue
+        ob.violate(m.qualname, where(m, ev.line), f"{m.name} writes instance/class state self.{attr} ({how}): answers depend on earlier queries", detail=f"state-write:{attr}")
